@@ -77,7 +77,7 @@ func pairFns(p *an.Prog) (fns []*an.Fn, poolFns map[*an.Fn]bool) {
 				if name == newScopeFn || name == releaseScopeFn {
 					interesting = true
 				}
-				if (name == "(*sync.Pool).Get" || name == "(*sync.Pool).Put") && strings.Contains(an.Str(x.Fun), "pool_State") {
+				if (name == "(*sync.Pool).Get" || name == "(*sync.Pool).Put") && isRuntimePool(info, an.Receiver(x)) {
 					poolFns[f] = true
 				}
 			case *ast.DeferStmt:
